@@ -67,6 +67,7 @@ class Sched:
         self.dead = None
         self.names = {}        # id(obj) -> stable name of locks / conditions
         self.decisions = []    # (kind, options, chosen) for replay / DFS
+        self.until = None      # predicate: stop settling as soon as it holds (directed replay of model behaviours)
         main = MThread(self, 'main')
         self.threads.append(main)
         self.by_ident[_rt.get_ident()] = main
@@ -128,11 +129,16 @@ class Sched:
             if self.steps > self.max_steps:
                 self.dead = 'step limit'
                 return self.main
+            if self.until is not None and self.main.state == 'idle' and self.until():
+                return self.main         # directed replay: hand the baton back as soon as the awaited event happened
             en = [t for t in self.threads if t.state != 'idle' and self._enabled(t)]
             nd = self._next_deadline()
             idle = [t for t in self.threads if t.state == 'idle']
             if en:
                 c = self.strategy.choose(self, en, nd)
+                if c is None:
+                    self.dead = 'directed: %s not enabled (enabled: %s)' % (getattr(self.strategy, 'target', '?'), [t.name for t in en])
+                    return self.main
                 if isinstance(c, tuple):      # ('tick', new_now): let time pass although threads could run
                     self._tick(c[1])
                     continue
@@ -148,6 +154,9 @@ class Sched:
                 self.dead = 'deadlock: ' + ', '.join(repr(t) for t in self.threads if t.state != 'done')
                 return self.main
             late = self.strategy.lateness(self, nd)
+            if late is None:
+                self.dead = 'directed: nobody enabled and no tick requested'
+                return self.main
             self._tick(nd + late)
 
     def _tick(self, t):
@@ -190,14 +199,20 @@ class Sched:
         th.start()
         return th
 
-    def settle(self, horizon=None):
+    def settle(self, horizon=None, until=None):
         """Main thread gives the baton away until no other thread can run and no timer fires
-        at or before `horizon` (virtual seconds; None = until no timers at all)."""
+        at or before `horizon` (virtual seconds; None = until no timers at all), or until `until()` holds."""
         me = self.me()
         assert me is self.main
+        if until is not None and until():
+            return
         me.state = 'idle'
         me.horizon = horizon
-        self._yield()
+        self.until = until
+        try:
+            self._yield()
+        finally:
+            self.until = None
         me.state = 'ready'
 
     def sleep(self, d):
@@ -530,6 +545,24 @@ class ChoiceStrategy:
 
     def lateness(self, s, nd):
         return self.lates[self._take(len(self.lates))]
+
+
+class DirectedStrategy:
+    """Runs only the thread named `target` (S->C replay of a model behaviour); time passes only when told."""
+
+    def __init__(self):
+        self.target = None
+
+    def choose(self, s, en, nd):
+        if s.main in en:     # the driver itself is doing something (not settling): let it finish
+            return s.main
+        for t in en:
+            if t.name == self.target:
+                return t
+        return None          # the model asked for a step the real thread cannot take
+
+    def lateness(self, s, nd):
+        return None          # nobody can run and the model did not tick
 
 
 class PriorityStrategy:
